@@ -63,13 +63,22 @@ def cases(ctx):
         return [{'doc': doc, 'why': why}]
     for d in omgen.REGRESSION_DOCS + ROUNDTRIP_DOCS:
         yield from emit(d, 'regression')
+    for d, n in TWO_EXPOSURE_DOCS:
+        for c in emit(d, 'two-exposures'):
+            c['nsamples'] = n
+            yield c
     for i in range(ctx.n(900, 6000)):
         g = omgen.Gen(rng, nh=False, rich=(i % 5 != 0))
         sdoc = g.doc()
         doc = omgen.render(sdoc)
         yield from emit(doc, 'valid')
-        if i % 3 == 0:        # groups exposed again at a later timestamp (scrape history)
-            yield from emit(omgen.render(omgen.repeat_exposures(rng, sdoc)), 'repeat')
+        if i % 3 == 0:        # groups exposed again at a later timestamp (scrape history): no sample may be lost
+            rdoc = omgen.repeat_exposures(rng, sdoc)
+            for c in emit(omgen.render(rdoc), 'repeat'):
+                if rdoc.added:
+                    c['base'] = doc
+                    c['added'] = rdoc.added
+                yield c
         for mdoc, kind in omgen.mutations(rng, doc, single=ctx.n(14, 40), double=ctx.n(4, 10)):
             yield from emit(mdoc, 'mut')
 
@@ -92,6 +101,24 @@ ROUNDTRIP_DOCS = [
 ]
 
 
+# valid documents in which a group is exposed at two timestamps, with the number of samples the parser must return
+# (before fixes/C15-om-later-exposure.diff every series of the later exposure but the first was dropped)
+TWO_EXPOSURE_DOCS = [
+    ('# TYPE a histogram\na_bucket{le="+Inf"} 3 1\na_count 3 1\na_sum 1 1\na_bucket{le="+Inf"} 4 2\na_count 4 2\na_sum 2 2\n# EOF\n', 6),
+    ('# TYPE a histogram\na_bucket{le="1"} 1 1\na_bucket{le="+Inf"} 2 1\na_count 2 1\na_sum 1 1\na_created 0 1\n'
+     'a_bucket{le="1"} 1 1.5\na_bucket{le="+Inf"} 3 1.5\na_count 3 1.5\na_sum 1 1.5\na_created 0 1.5\n# EOF\n', 10),
+    ('# TYPE a gaugehistogram\na_bucket{x="y",le="+Inf"} 3 1\na_gcount{x="y"} 3 1\na_gsum{x="y"} 1 1\n'
+     'a_bucket{x="y",le="+Inf"} 2 7\na_gcount{x="y"} 2 7\na_gsum{x="y"} 0 7\n# EOF\n', 6),
+    ('# TYPE a summary\na{quantile="0.5"} 1 1\na_count 1 1\na_sum 1 1\na{quantile="0.5"} 2 2\na_count 2 2\na_sum 3 2\n# EOF\n', 6),
+    ('# TYPE a counter\na_total 1 1\na_created 1 1\na_total 2 2\na_created 1 2\n# EOF\n', 4),
+    ('# TYPE a stateset\na{a="x"} 1 1\na{a="y"} 0 1\na{a="x"} 0 2\na{a="y"} 1 2\n# EOF\n', 4),
+]
+
+
+def _nsamples(fams):
+    return sum(len(f.samples) for f in fams)
+
+
 def impl(case):
     from prometheus_client.openmetrics.exposition import generate_latest
     doc = case['doc']
@@ -100,6 +127,12 @@ def impl(case):
         return {'parse': ['err', r[1]], 'rt': 'rejected'}
     fams = r[1]
     obs = {'parse': ['ok', c14om.canon_families(fams)]}
+    if 'nsamples' in case and _nsamples(fams) != case['nsamples']:
+        obs['lost'] = [case['nsamples'], _nsamples(fams)]
+    if 'base' in case:
+        rb = c14om.parse_impl(case['base'])
+        if rb[0] == 'ok' and _nsamples(rb[1]) + case['added'] != _nsamples(fams):
+            obs['lost'] = [_nsamples(rb[1]) + case['added'], _nsamples(fams)]
     if any(s.native_histogram is not None for f in fams for s in f.samples):
         obs['rt'] = 'native-histogram'
         return obs
@@ -130,6 +163,9 @@ def same(impl_obs, model_obs):
 
 
 def direct(case, obs):
+    if obs.get('lost'):
+        return 'accepted document with a group exposed at two timestamps: %d samples expected, %d returned: %r' % (
+            obs['lost'][0], obs['lost'][1], case['doc'][:300])
     rt = obs['rt']
     if rt in ('rejected', 'native-histogram', 'same'):
         return None
